@@ -462,7 +462,12 @@ class NetSim:
                 from nmea2000.message import NMEA2000Message
                 m = op["msg"]
                 msg = NMEA2000Message.from_json(m) if isinstance(m, str) else m
-                await c.send(msg)
+                if op.get("timeout") is not None:
+                    # the caller gives up after a while: the send() coroutine is cancelled wherever it is
+                    self.fired["send_caller_timeout_armed"] += 1
+                    await asyncio.wait_for(c.send(msg), op["timeout"])
+                else:
+                    await c.send(msg)
         except asyncio.CancelledError:
             rec["exc"] = "CancelledError"
             raise
